@@ -16,7 +16,7 @@ from mc.canon import canon_definition, footprint_changes, package_footprint
 from mc.kernel import Tally, case_alarm, chunked, fan_out, observed_warnings
 from mc.observe import exc_names, items_of
 from mc.seams import ScriptedSocket, owned_clock
-from mc.spec import (BinEnc, Cmp, Container, Doc, Dyn, Fixed, FloatEnc, IntEnc, Param, Poly, PType, StrEnc, header_entries,
+from mc.spec import (BinEnc, Cmp, Container, CtxCal, Doc, Dyn, Fixed, FloatEnc, IntEnc, Param, Poly, PType, StrEnc, header_entries,
                      header_params, header_ptypes, load_doc, build_objects)
 
 PROP = "C11"
@@ -27,7 +27,11 @@ def the_doc():
     pts = header_ptypes() + (
         PType("U3", "Integer", IntEnc(3)), PType("U5", "Integer", IntEnc(5)),
         PType("BLOB_T", "Binary", BinEnc(Dyn("A_LEN", False, 8, 0))),
-        PType("CAL_T", "Integer", IntEnc(8, default_cal=Poly(((1.5, 0), (0.5, 1))))),
+        # two context calibrators whose criteria overlap (the first that matches wins, whatever was decoded before) and a default
+        PType("CAL_T", "Integer", IntEnc(8, default_cal=Poly(((1.5, 0), (0.5, 1))), ctx_cals=(
+            CtxCal((Cmp("A_LEN", "==", "2"), Cmp("A_PAD", "==", "21")), Poly(((1000.0, 0), (1.0, 1)))),
+            CtxCal((Cmp("A_LEN", ">=", "1"),), Poly(((2000.0, 0), (1.0, 1)))),
+            CtxCal((Cmp("A_PAD", ">=", "0"),), Poly(((3000.0, 0), (1.0, 1))))))),
         PType("STR_T", "String", StrEnc(Fixed(16), "ISO-8859-1")),
         PType("F32_T", "Float", FloatEnc(32)),
         PType("E_T", "Enumerated", IntEnc(2), enum=((0, "OFF"), (1, "ON"), (2, "SAFE"), (3, "FAULT"))),
